@@ -99,6 +99,8 @@ def gen_history(d, qcap, flags, lines=True, holds=True, long_history=True, line_
             c = d.pick(lcs)
             form = d.pick([k for k in c["h"]])
             ln = b"AT" + c["name"] + {"w": b"=" + G.g_args(d, c, True), "r": b"?", "n": b""}[form]
+            if form == "w" and d.unlikely(1, 5):
+                ln += bytes(d.pick([0, 0, 1, 8, 9, 127, 200, 255, 32]) for _ in range(d.rng(1, 4))) + d.pick([b"", b"1", b"x,y"])
             inp += ln.replace(b"\n", b".").replace(b"\r", b".") + (b"\r\n" if d.below(3) == 0 else b"\n")
         # every possible hold is released eventually
         for k in range(1, 8):
